@@ -9,7 +9,7 @@ use xeh::prelude::*;
 pub const DEF: PropDef = PropDef {
     id: "C03",
     rule: "histories of <=40 (quick) / <=150 (thorough) operations over a forest of up to 6 live interpreter states: Eval(i, src), CompileStep(i, src, a forward steps, b backward steps, run), Clone(i), CloneFrom(i, j) (Clone::clone_from into a live state), SetInput(i, bytes), Record(i, on/off), Drop(i), CatchUp(j, n). \
-Sources come from a pool built to share and then mutate: bit-strings held in variables, on the stack and as the open input that are appended to / inverted / sliced / emitted / packed, vector push, map insert/remove, variable stores, let, definitions and redefinitions, late words resolved on one copy only, recording on one copy only, failing sources, plus control-flow programs from the C01 generator. \
+Sources come from a pool built to share and then mutate: bit-strings held in variables, on the stack and as the open input that are appended to / inverted / sliced / emitted / packed, vector push, map insert/remove, variable stores, let, definitions and redefinitions, late words resolved on one copy only, recording on one copy only, failing sources, tagged values and containers left on the stack and then tagged / pushed / inserted on one copy, plus control-flow programs from the C01 generator. \
 Oracle 1 (isolation): before each operation the rendering of every live state is held (complete dump by content, variables, pending stdout); after an operation on state i every other state must render byte-identically. \
 Oracle 2 (determinism): every clone first follows its original: each operation later applied to the original is queued for the clone together with the original's result and rendering, and is applied to the clone at a generated later time, interleaved with other activity; result, dump, variables and stdout must match at every position. Clones of clones follow the same way. \
 A separate 1/12 of the cases loads the 2D canvas plugin, whose host object is shared between clones (reported under the known finding). \
@@ -29,7 +29,7 @@ pub const KNOWN_D2: &str = "d2-*: the 2D canvas host object is shared between an
 
 const SETUP: &str = "|a5 5a 33| var b0 |0f| var b1 [ 1 2 ] var v0 { 1 \"a\" } var m0 0 var n0";
 
-const POOL: [&str; 60] = [
+const POOL: [&str; 80] = [
     "1 bytes drop 12 bits close-bitstr",
     "2 bytes drop 5 bits close-bitstr",
     "1 bytes drop 12 bits",
@@ -90,6 +90,27 @@ const POOL: [&str; 60] = [
     "b0 b0 equal?",
     "input offset",
     "close-bitstr",
+    // containers and tagged values left on the stack / in variables, then extended on one copy
+    "7 \"first\" \"a\" insert-tag",
+    "\"second\" \"b\" insert-tag tags",
+    "\"third\" \"c\" insert-tag",
+    "\"a\" remove-tag tags",
+    "dup tags",
+    "n0 \"t1\" \"k1\" insert-tag ! n0",
+    "n0 \"t2\" \"k2\" insert-tag ! n0 n0 tags",
+    "n0 \"k1\" get-tag",
+    "v0 \"tv\" \"k\" insert-tag ! v0",
+    "v0 { 1 \"p\" } with-tags",
+    "v0",
+    "m0",
+    "9 swap push",
+    "[ 5 6 ] concat",
+    "sort",
+    "5 \"z\" insert",
+    "\"a\" remove",
+    "b0 \"bt\" \"k\" insert-tag ! b0",
+    "b0 tags",
+    "\"s\" \"x\" \"k\" insert-tag",
 ];
 
 const D2POOL: [&str; 6] = ["4 3 d2-resize", "7 d2-color! 1 1 d2-data!", "1 1 d2-data", "d2-width", "d2-clear", "2 2 d2-resize 9 d2-color! 0 0 d2-data!"];
@@ -323,7 +344,7 @@ pub fn case(ch: &mut Choices, ctx: &CaseCtx) -> CaseOut {
         let followers_alive = states.iter().any(|s| s.leader == Some(states[i].id));
         if followers_alive || states.len() > 1 {
             if let Op::Eval(s) | Op::CompileStep(s, ..) = &op {
-                if ["b0", "b1", "v0", "m0", "n0", "bits", "emit", "d2-"].iter().any(|k| s.contains(k)) {
+                if ["b0", "b1", "v0", "m0", "n0", "bits", "emit", "d2-", "tag", "push", "insert", "remove", "concat"].iter().any(|k| s.contains(k)) {
                     shared_mutation = true;
                 }
             }
